@@ -2,7 +2,7 @@
 from ..srcmodel import AnalysisError
 from ..algebra import Poly
 from .. import ndarr
-from ..ndarr import Arr, InterpRaise
+from ..ndarr import Arr, InterpRaise, Unk
 from ..absint import ClassRef, Interp
 from ..libmodels import Models
 from ..dv import DV, tags_of, NONZERO_STEPS
@@ -232,8 +232,30 @@ def dirdiff(ctx):
     """directionaldiff in the exact algebra: capture the function handed to Derivative and evaluate it at a symbol."""
     rep = ctx.rep
     core = ctx.repo.module('core')
+    def nonzero_direction(interp, node, fr, value):
+        """The property speaks of non-zero v: a test whether the direction (or a component of it, each a free symbol) vanishes
+        is answered 'it does not'; every other undetermined test ends the run."""
+        def ev(e):
+            e = e.expr if isinstance(e, Unk) else e
+            if isinstance(e, bool):
+                return e
+            if not (isinstance(e, tuple) and e):
+                return None
+            if e[0] == 'not':
+                r = ev(e[1])
+                return None if r is None else not r
+            if e[0] in ('and', 'or', 'any', 'all'):
+                parts = [ev(x) for x in (e[1] if e[0] in ('any', 'all') and isinstance(e[1], (list, tuple)) else e[1:])]
+                if any(p_ is None for p_ in parts) or not parts:
+                    return None
+                return all(parts) if e[0] in ('and', 'all') else any(parts)
+            if e[0] == 'cmp' and e[1] in ('!=', '==') and ndarr.concrete_real(e[3]) == 0 and isinstance(e[2], Poly) \
+                    and e[2].atoms() and all(a_.startswith('v') and a_[1:].isdigit() for a_ in e[2].atoms()):
+                return e[1] == '!='
+            return None
+        return ev(value)
     models = Models()
-    I = Interp(ctx.repo, models)
+    I = Interp(ctx.repo, models, branch_oracle=nonzero_direction)
     models.bind(I)
     dd = I.get_global('core', 'directionaldiff')
     Dref = I.get_global('core', 'Derivative')
